@@ -310,10 +310,6 @@ def denoted(case):
     return out
 
 
-def _title_meta(case):
-    return dict(title=case["title"], artist=case["artist"])
-
-
 def make_source(case):
     """-> (payload for read(), bytes for a file, list of reference models (one per chart))"""
     src = case["src"]
@@ -760,9 +756,7 @@ def _cmp_tempo(ctx, case, got, exp, tol, dt):
 
 def _labels(ctx, case, models):
     src, dst, cls = case["src"], case["dst"], case["cls"]
-    ctx.label(f"pair={src}->{dst}")
-    ctx.label(f"class={cls}")
-    ctx.label(f"{src}->{dst}:{cls}")
+    ctx.label(f"class={cls}")  # the sub-check name (= the pair) prefixes every label in the evidence
     if src in MS_FORMATS and cls == "mild":
         ctx.label("ms-" + case["ms"])
     ctx.label("via-file", case["via_file"])
